@@ -18,6 +18,18 @@ CLAIMED = {
         note="Trusted: scipy.stats reference densities and the C20 reference stencils. Names always given explicitly. One recorded finding "
              "(conditioning an already reduced Posterior on its last variable raises) is excluded and counted.",
         design="3/C01"),
+    "C02": dict(
+        technique="Hypothesis property tests under an interposed random stream: the proposal map is measured by basis probing, the uniform draw is scripted at alpha_ref*(1 +- delta), the decision is compared with the exact Metropolis-Hastings rule; reference sweep for CWMH",
+        text="For MH, pCN, MALA (both interfaces) the proposal mechanism is measured (x' = a(x) + B(x) xi from a fresh kernel with noise 0 and e_i, "
+             "at x and at x'), alpha_ref = min(1, pi(x')q(x|x')/(pi(x)q(x'|x))) is computed from the target's own logd, and the scripted "
+             "uniform is placed at alpha_ref*(1 +- delta), delta down to 1e-9: a kernel whose acceptance probability is off by a relative "
+             "1e-9 is caught in one transition. On rejection state and caches must be bit-identical, on acceptance they must equal fresh "
+             "evaluations at x'. CWMH sweeps are replayed by a reference sweep fed the same proposals and uniforms. Histories: fresh, after "
+             "warm-up/adaptation under a seeded stream, after get_state -> set_state into a new sampler. NaN / -inf proposals must be "
+             "rejected for every u including 1e-300. Exact MH acceptance for the measured q is detailed balance, hence invariance.",
+        note="Assumes proposals are affine in the base normal draw (checked per case). Targets: quadratic+quartic with analytic gradient, "
+             "linear/non-linear Gaussian posteriors for pCN; dim <= 5.",
+        design="3/C02"),
     "C03": dict(
         technique="Hypothesis property tests: gradient vs Richardson-extrapolated central differences of the same object's logd; required non-finite outside the support; refusal accepted",
         text="For generated distributions (all families/parameterisations, Gaussian forms on both sides of the sparse switch, MRFs over "
